@@ -38,6 +38,7 @@ type Scenario struct {
 	PanicIcept int // index of an interceptor that panics (-1 none)
 	Sync       bool
 	LongPause  bool
+	GrowBy     int // > 0: the last interceptor also pads the value by this many bytes (a message may outgrow MaxMessageBytes)
 	Msgs       []Msg
 	Faults     map[int]sarama.VerifSimFault // by global produce request number
 	MetaFailAt map[int]bool
@@ -168,6 +169,9 @@ func Gen(seed uint64, focus string) *Scenario {
 		if r.Chance(1, 3) {
 			sc.PanicIcept = r.Intn(sc.Icepts)
 		}
+		if sc.MaxMsgByte < 1000000 && r.Chance(1, 2) {
+			sc.GrowBy = sc.MaxMsgByte / 2
+		}
 	}
 	n := r.Range(1, 24)
 	if r.Chance(1, 5) {
@@ -286,6 +290,9 @@ func Gen(seed uint64, focus string) *Scenario {
 					sc.Msgs[i].ValLen = r.Range(20, sc.MaxMsgByte/3)
 				}
 			}
+			if sc.Icepts > 0 && r.Bool() {
+				sc.GrowBy = sc.MaxMsgByte * 3 / 4
+			}
 		}
 		for i := range sc.PauseMs {
 			sc.PauseMs[i] = r.Pick(0, 0, 1)
@@ -307,7 +314,7 @@ func (sc *Scenario) String() string {
 	}
 	return fmt.Sprintf("seed=%d focus=%s brokers=%d parts=%d retry=%d flush=%d/%d/%dms max=%d maxbytes=%d idem=%v acks=%d ver=%s buf=%d codec=%d icepts=%d/%d msgs=%d closeAfter=%d faults=[%s] sync=%v",
 		sc.Seed, sc.Focus, sc.Brokers, sc.Partitions, sc.RetryMax, sc.FlushMsgs, sc.FlushBytes, sc.FlushFreq, sc.MaxMsgs, sc.MaxMsgByte,
-		sc.Idempotent, sc.Acks, sc.Version, sc.ChanBuf, sc.Codec, sc.Icepts, sc.PanicIcept, len(sc.Msgs), sc.CloseAfter, strings.Join(fs, ","), sc.Sync) + fmt.Sprintf(" latency=%dms", sc.LatencyMs)
+		sc.Idempotent, sc.Acks, sc.Version, sc.ChanBuf, sc.Codec, sc.Icepts, sc.PanicIcept, len(sc.Msgs), sc.CloseAfter, strings.Join(fs, ","), sc.Sync) + fmt.Sprintf(" latency=%dms growBy=%d", sc.LatencyMs, sc.GrowBy)
 }
 
 func payload(id, n int) []byte {
@@ -333,10 +340,25 @@ func valueOf(m Msg) []byte {
 type icept struct {
 	k     int
 	panic bool
+	grow  int
+}
+
+// wireValueOf: the value a message carries after the interceptor chain ran (once) over it
+func wireValueOf(sc *Scenario, m Msg) []byte {
+	v := valueOf(m)
+	if sc.GrowBy > 0 && sc.Icepts > 0 && v != nil {
+		v = append(append([]byte(nil), v...), bytes.Repeat([]byte{'+'}, sc.GrowBy)...)
+	}
+	return v
 }
 
 func (i *icept) OnSend(m *sarama.ProducerMessage) {
 	m.Headers = append(m.Headers, sarama.RecordHeader{Key: []byte(fmt.Sprintf("i%d", i.k)), Value: []byte("x")})
+	if i.grow > 0 && m.Value != nil {
+		if b, err := m.Value.Encode(); err == nil {
+			m.Value = sarama.ByteEncoder(append(append([]byte(nil), b...), bytes.Repeat([]byte{'+'}, i.grow)...))
+		}
+	}
 	if i.panic {
 		panic("interceptor panic (scripted)")
 	}
@@ -390,7 +412,11 @@ func Run(sc *Scenario) *Result {
 		cfg.Net.MaxOpenRequests = 1
 	}
 	for k := 0; k < sc.Icepts; k++ {
-		cfg.Producer.Interceptors = append(cfg.Producer.Interceptors, &icept{k: k, panic: k == sc.PanicIcept})
+		ic := &icept{k: k, panic: k == sc.PanicIcept}
+		if k == sc.Icepts-1 {
+			ic.grow = sc.GrowBy
+		}
+		cfg.Producer.Interceptors = append(cfg.Producer.Interceptors, ic)
 	}
 	if err := cfg.Validate(); err != nil {
 		res.NewErr = "config: " + err.Error()
@@ -816,7 +842,7 @@ func Check(res *Result) []Fail {
 			if m.Partition != p {
 				add("C04:wrong-partition", "message %d (partition %d) found in partition %d", id, m.Partition, p)
 			}
-			if !bytes.Equal(r.Value, valueOf(m)) || !bytes.Equal(r.Key, keyOf(m)) {
+			if !bytes.Equal(r.Value, wireValueOf(sc, m)) || !bytes.Equal(r.Key, keyOf(m)) {
 				add("C04:payload-altered", "message %d stored with key=%q value=%q", id, r.Key, r.Value)
 			}
 			if sc.Version.IsAtLeast(sarama.V0_11_0_0) {
@@ -1116,8 +1142,8 @@ func Check(res *Result) []Fail {
 		if m.KeyLen > 0 {
 			sz += m.KeyLen
 		}
-		if v := valueOf(m); v != nil {
-			sz += len(v)
+		if v := wireValueOf(sc, m); v != nil {
+			sz += len(v) // what the message weighs when the dispatcher checks it (after the interceptors)
 		}
 		if sz > sc.MaxMsgByte && o.Ok {
 			add("C16:oversize-message-sent", "message %d with %d key+value bytes reported successful, MaxMessageBytes=%d", o.ID, sz, sc.MaxMsgByte)
